@@ -22,12 +22,15 @@ macro_rules! dispatch {
     ($id:expr, $f:ident, $($arg:expr),*) => {
         match $id {
             "C01" => $f(&checks::c01::C01, $($arg),*),
+            "C02" => $f(&checks::c02::C02, $($arg),*),
             "C03" => $f(&checks::c03::C03, $($arg),*),
             "C04" => $f(&checks::c04::C04, $($arg),*),
             "C06" => $f(&checks::c06::C06, $($arg),*),
             "C07" => $f(&checks::c07::C07, $($arg),*),
             "C08" => $f(&checks::c08::C08, $($arg),*),
             "C12" => $f(&checks::c12::C12, $($arg),*),
+            "C13" => $f(&checks::c13::C13, $($arg),*),
+            "C14" => $f(&checks::c14::C14, $($arg),*),
             "C05" => $f(&checks::c05::C05, $($arg),*),
             other => {
                 eprintln!("harness error: unknown or unclaimed property {}", other);
